@@ -23,6 +23,8 @@ Record case := mkcase {
   k_final : fsys;                 (* observed directory after Close and the last clean-up *)
   k_setup : option setup;         (* configuration stream: the logx.Config the rule was built from by
                                      newFileWriter/createOutput; k_cfg is then the rule OBSERVED on the logger *)
+  k_hyp : bool;                   (* the proviso of the durability clauses, measured on the observed rotations: no
+                                     clock string was chosen for two backup names (rotations a second apart) *)
   k_front_ok : bool               (* front-end stream: every record reached RotateLogger.Write as exactly one
                                      slice holding its well-formed encoding (Spec.frontend_ok); true otherwise *)
 }.
@@ -226,8 +228,9 @@ Definition spec_ok (k : case) : bool :=
   k_front_ok k &&
   (* the configured numbers reached the rule unchanged *)
   cfg_eqb c (k_cfg k) &&
-  once_complete w all &&
-  (if nondecreasing (stamps k) then in_order k w all else true) &&
+  (* durability -- under the property's proviso; what HEAD does when two rotations fall into one second (the
+     second rename replaces the first backup) is pinned by model_ok only *)
+  (if k_hyp k then once_complete w all && (if nondecreasing (stamps k) then in_order k w all else true) else true) &&
   overshoot_ok k w all &&
   all_compressed k w &&
   forallb (fun e => match e with
